@@ -561,7 +561,7 @@ def verify_unit(unit, units, tier='quick', jobs=4, log=None):
     if b['loops'] > nl and not unit.get('unwind'):
         res['reason'] = 'SPEC-ERROR: %d loops in the extracted body but only %d loop contracts and no unwind bound' % (b['loops'], nl)
         return res
-    timeout = int(unit.get('timeout', 300 if tier == 'quick' else 900))
+    timeout = int(unit.get('timeout', 900 if tier == 'quick' else 2400))
     results = {}
     r = None
     if unit.get('mode') != 'split':
